@@ -30,8 +30,9 @@ def _tsbs_result(eng, st, bound):
 target_should_be_saved = REG.add(Contract(
     F, "Context._target_should_be_saved",
     params=dict(target_plugin="V", target="V", targets="V", save="V"),
-    requires=lambda S, a: [("save_when is one of the four policies",
-                            S.And(0 <= _sw(S, a.target_plugin, a.target), _sw(S, a.target_plugin, a.target) <= 3))],
+    requires=lambda S, a: [("save_when is one of the four policies (an IntEnum value)",
+                            S.And(0 <= _sw(S, a.target_plugin, a.target), _sw(S, a.target_plugin, a.target) <= 3,
+                                  S.int_valued(S.getitem(S.attr(a.target_plugin, "save_when"), a.target))))],
     ensures=lambda S, a, r: [
         ("saved exactly when: always / a target under TARGET / explicitly listed under EXPLICIT",
          S.Iff(r, _tsbs_spec(S, a.target_plugin, a.target, a.targets, a.save))),
@@ -129,8 +130,9 @@ def _recursive_call(eng, args, kw, st, fr, k, node):
 
 def _all_sw_valid():
     p, d = z3.Consts("sw_p sw_d", V)
-    t = z3.Function("v2int", V, z3.IntSort())(z3.Function("getitem", V, V, V)(z3.Function("attr_save_when", V, V)(p), d))
-    return z3.ForAll([p, d], z3.And(0 <= t, t <= 3))
+    e = z3.Function("getitem", V, V, V)(z3.Function("attr_save_when", V, V)(p), d)
+    t = z3.Function("v2int", V, z3.IntSort())(e)
+    return z3.ForAll([p, d], z3.And(0 <= t, t <= 3, e == z3.Function("int2v", z3.IntSort(), V)(t)))
 
 
 _CC_FREE = dict(self="V", run_id="V", targets="V", save="V", time_range="V", selection="V", keep_columns="V",
